@@ -822,6 +822,44 @@ ExtrasNext ==
   \/ TrXPrecise \/ TrXMonth \/ TrXWeekdayName \/ TrXSeriesText \/ TrXHash \/ TrXLeapIter
 
 -----------------------------------------------------------------------------
+(* The system machine (Hifitime.tla): calls whose operand is the content of another register.   *)
+(* Each recorded call is judged by the action of the system specification; what the action       *)
+(* leaves unlogged (the operand re-expressed in another scale) is inferred from the candidates.  *)
+TrHDiff == IsOp("h_diff") /\ UNCHANGED sw /\ IsDur(E.res) /\
+           LET f == EV(E.f)
+               cands == {H!Ep(e.ts, x) : x \in (X!ConvSet(f, e.ts) \cup {B!Sub(e.v, DV(E.res))})}
+           IN  \E fc \in cands : H!HDiff(f, fc) /\ DurIs(E.res, d')
+TrHAddReg   == IsOp("h_add_reg")   /\ UNCHANGED sw /\ H!HAddReg   /\ EpIs(E.res, e')
+TrHSubReg   == IsOp("h_sub_reg")   /\ UNCHANGED sw /\ H!HSubReg   /\ EpIs(E.res, e')
+TrHFloorReg == IsOp("h_floor_reg") /\ UNCHANGED sw /\ H!HFloorReg /\ EpIs(E.res, e')
+TrHCeilReg  == IsOp("h_ceil_reg")  /\ UNCHANGED sw /\ IsEp(E.res) /\ H!HCeilReg(DV(E.res))  /\ EpIs(E.res, e')
+TrHRoundReg == IsOp("h_round_reg") /\ UNCHANGED sw /\ IsEp(E.res) /\ H!HRoundReg(DV(E.res)) /\ EpIs(E.res, e')
+TrHSeries   == IsOp("h_series")    /\ UNCHANGED sw /\ Has(E.res, "v") /\ H!HSeries(B!ToInt(Big(E.n)), E.incl)
+TrHTake     == IsOp("h_take")      /\ UNCHANGED sw /\ H!HTake /\ ItemIs(E.res, sout')
+TrHWdOf     == IsOp("h_wd_of")     /\ UNCHANGED sw /\ Has(E.res, "v") /\
+                 \E rc \in ConvCands(X!TAI) : H!HWeekdayOf(rc) /\ WdIs(E.res, w')
+TrHNextW    == IsOp("h_next_w")    /\ UNCHANGED sw /\ \E rc \in ConvCands(X!TAI) : H!HNextW(rc) /\ EpIs(E.res, e')
+TrHPrevW    == IsOp("h_prev_w")    /\ UNCHANGED sw /\ \E rc \in ConvCands(X!TAI) : H!HPrevW(rc) /\ EpIs(E.res, e')
+TrHDaysTo   == IsOp("h_days_to")   /\ UNCHANGED sw /\ H!HDaysTo(E.b) /\ DurIs(E.res, d')
+TrHTowOf    == IsOp("h_tow_of")    /\ UNCHANGED sw /\ Has(E.res, "w") /\ H!HTowOf
+                 /\ Big(E.res.w) = eout'[2][1] /\ Big(E.res.n) = eout'[2][2] /\ DurIs(E.res.d, d')
+TrHFromTow  == IsOp("h_from_tow")  /\ UNCHANGED sw /\ H!HFromTow(Big(E.wk)) /\ EpIs(E.res, e')
+(* F1 through floor / ceil / round with the step taken from the register *)
+Dev_F1H ==
+  /\ Open("F1") /\ UNCHANGED sw /\ KeepD /\ KeepS /\ KeepW /\ l <= Len(Rec) /\ IsEp(E.res)
+  /\ \/ /\ IsOp("h_floor_reg") /\ (M!F1Class(e.v) \/ M!F1Class(d))
+          /\ e' = X!Ep(e.ts, M!F1Floor(e.v, d)) /\ e'.v # M!Floor(e.v, d)
+      \/ /\ IsOp("h_ceil_reg") /\ (M!F1Class(e.v) \/ M!F1Class(d) \/ M!F1Class(M!F1Floor(e.v, d)))
+          /\ e' = X!Ep(e.ts, M!F1Ceil(e.v, d)) /\ e'.v \notin M!CeilSet(e.v, d)
+      \/ /\ IsOp("h_round_reg") /\ (M!F1Class(e.v) \/ M!F1Class(d) \/ M!F1Class(M!F1Floor(e.v, d)))
+          /\ e' = X!Ep(e.ts, M!F1Round(e.v, d)) /\ e'.v \notin M!RoundSet(e.v, d)
+  /\ EpIs(E.res, e') /\ eout' = <<"epoch", e'>>
+  /\ Known("F1")
+SystemNext ==
+  \/ TrHDiff \/ TrHAddReg \/ TrHSubReg \/ TrHFloorReg \/ TrHCeilReg \/ TrHRoundReg \/ TrHSeries \/ TrHTake
+  \/ TrHWdOf \/ TrHNextW \/ TrHPrevW \/ TrHDaysTo \/ TrHTowOf \/ TrHFromTow \/ Dev_F1H
+
+-----------------------------------------------------------------------------
 TraceInit == l = Start /\ M!DInit /\ X!EInit /\ sw = B!Zero /\ X!SInit /\ W!WInit
 TraceNext == \/ (DurationNext /\ KeepE /\ KeepS /\ KeepW)
              \/ EpochNext
@@ -830,6 +868,7 @@ TraceNext == \/ (DurationNext /\ KeepE /\ KeepS /\ KeepW)
              \/ TextNext
              \/ FloatNext
              \/ ExtrasNext
+             \/ SystemNext
 TraceSpec == TraceInit /\ [][TraceNext]_vars
 
 (* invariants evaluated at every step of every validated trace *)
